@@ -10,6 +10,7 @@ from . import ops, repo, contracts
 from .engine import Evaluator, State, Outcome, ExcVal, Frame, SpecCtx, Static, static
 from .speceval import SpecEval
 from . import builtins_model as bm
+from . import trace
 
 
 class Obligation:
@@ -269,6 +270,8 @@ class Executor(Evaluator):
                             continue
                     s3 = s3.copy()
                     s3.heap.write_field(fkey, fty, obj.term, v)
+                    if trace.field_write_bumps(fkey):
+                        trace.bump(s3)
                     pk = ('present', fkey)
                     if pk in s3.heap.sorts or fkey in bm.OPTIONAL_FIELDS:
                         k = s3.heap.present_key(fkey)
@@ -281,6 +284,8 @@ class Executor(Evaluator):
                 if isinstance(obj.ty, TDict):
                     s3 = s2.copy()
                     s3.heap.dict_put(obj.ty.k, obj.ty.v, obj.term, coerce(idx, obj.ty.k).term, v)
+                    if trace.container_write_bumps(obj.ty.v):
+                        trace.bump(s3)
                     out.append(s3)
                 elif isinstance(obj.ty, TList):
                     n = s2.heap.list_len(obj.term)
@@ -290,6 +295,8 @@ class Executor(Evaluator):
                         continue
                     s3 = s3.copy()
                     s3.heap.list_set(obj.ty.elem, obj.term, j, v)
+                    if trace.container_write_bumps(obj.ty.elem):
+                        trace.bump(s3)
                     out.append(s3)
                 else:
                     raise Unsupported('subscript store on %r' % (obj.ty,))
@@ -406,12 +413,10 @@ class Executor(Evaluator):
             if n in h.locals:
                 h.locals[n] = fresh(h.locals[n].ty, n)
         # heap frame: objects named in the loop's modifies clause may change, nothing else
-        mod_terms = []
-        for text in lp.modifies_exprs:
-            mod_terms.append(self.S.eval(text, self.spec_cx(st)))
         head_heap = st.heap
-        if mod_terms:
-            self.havoc_refs(h, mod_terms)
+        hcx = self.spec_cx(st)
+        for text in lp.modifies_exprs:
+            bm.havoc_target(self, text, hcx, h, st.heap)
         for n in sorted(mod_names):
             if n in h.locals:
                 h.pc += self.W.type_facts(h.locals[n], h.heap)
@@ -437,7 +442,7 @@ class Executor(Evaluator):
                             if dec0 is not None:
                                 d1 = coerce(self.S.eval(lp.decreases_expr, self.spec_cx(e)), INT).term
                                 self.oblige(e, z3.And(dec0 >= 0, d1 < dec0), '%s.loop%d.decreases' % (fname, k), 'termination')
-                            self.check_loop_frame(e, h.heap, mod_terms, fname, k)
+                            self.check_frame_against(lp.modifies_exprs, h.heap, h.locals, e, '%s.loop%d.frame' % (fname, k))
                     elif o.kind == 'break':
                         outs.append(Outcome('normal', o.st))
                     else:
@@ -459,7 +464,7 @@ class Executor(Evaluator):
                 new.append(na)
             st.heap.set(key, new)
 
-    def check_loop_frame(self, st, head_heap, mod_svs, fname, k):
+    def check_loop_frame(self, st, head_heap, mod_svs, fname, k, mod_groups=()):
         refs = [v.term for v in mod_svs]
         for key in st.heap.keys():
             if key[0] in ('alloc', 'g'):
@@ -475,7 +480,82 @@ class Executor(Evaluator):
         for key in [kk for kk in st.heap.keys() if kk[0] == 'g']:
             a0 = head_heap.get(key); a1 = st.heap.get(key)
             if any(not x.eq(y) for x, y in zip(a0, a1)):
-                raise Unsupported('loop writes global %s: not supported in loop frames' % (key,))
+                if key[1] == '$epoch' or any(key[1] in trace.GROUPS[g] for g in mod_groups):
+                    continue
+                raise Unsupported('loop writes global %s which its modifies clause does not name' % (key,))
+
+
+    def check_frame_against(self, modifies_l, h0, env0, st, label, keeps_epoch=False):
+        """obligations: every heap location not named in modifies_l has its h0 value in st.heap"""
+        allowed = {}      # key -> list of allowed refs, or None for 'anything'
+        cx = SpecCtx(env0, h0, env0, h0, st, self.frame)
+        for m in modifies_l:
+            m = m.strip()
+            if m == 'new':
+                continue
+            if m in trace.GROUPS:
+                for g in trace.GROUPS[m] + (trace.GROUPS['shown'] if m == 'trace' else []):
+                    allowed[('g', g)] = None
+                continue
+            e = ast.parse(m, mode='eval').body
+            if isinstance(e, ast.Call) and isinstance(e.func, ast.Name):
+                kind = e.func.id
+                if kind == 'global':
+                    allowed[('g', ast.unparse(e.args[0]))] = None
+                    continue
+                if kind == 'field':
+                    fq = ast.unparse(e.args[0])
+                    clsq, fname = fq.rsplit('.', 1)
+                    decl = self.W.field_decl(self.W.cls_by_name(clsq), fname)
+                    allowed[('f', decl[0])] = None
+                    continue
+                target = self.S.eval(e.args[0], cx)
+                if kind == 'list':
+                    keys = [h0.list_len_key()] + h0.list_arr_keys(target.ty.elem)
+                elif kind == 'dict':
+                    keys = [h0.dict_has_key(target.ty.k), h0.dict_size_key()] + h0.dict_val_keys(target.ty.k, target.ty.v)
+                elif kind == 'set':
+                    keys = [h0.set_has_key(target.ty.k), h0.set_size_key()]
+                else:
+                    raise Unsupported('modifies target ' + m)
+                for k in keys:
+                    if allowed.get(k, []) is not None:
+                        allowed.setdefault(k, []).append(target.term)
+            elif isinstance(e, ast.Attribute):
+                obj = self.S.eval(e.value, cx)
+                for gk, (what, classes) in self.attr_candidates(obj, e.attr, []).items():
+                    if gk[0] == 'field':
+                        k = ('f', what[0])
+                        if allowed.get(k, []) is not None:
+                            allowed.setdefault(k, []).append(obj.term)
+                        allowed.setdefault(('present', what[0]), []).append(obj.term)
+            else:
+                raise Unsupported('modifies target ' + m)
+        for key in st.heap.keys():
+            if key[0] == 'alloc':
+                continue
+            a0 = h0.get(key)
+            a1 = st.heap.get(key)
+            if all(x.eq(y) for x, y in zip(a0, a1)):
+                continue
+            if key[0] == 'g':
+                if key[1] == '$epoch':
+                    if keeps_epoch:
+                        self.oblige(st, z3.And([x == y for x, y in zip(a0, a1)]), label + '.epoch', 'frame')
+                    continue
+                if key in allowed:
+                    continue
+                self.oblige(st, z3.And([x == y for x, y in zip(a0, a1)]), label + '.' + key[1], 'frame')
+                continue
+            if key in allowed and allowed[key] is None:
+                continue
+            refs = allowed.get(key, [])
+            r = z3.Int(fresh_name('r'))
+            for x, y in zip(a0, a1):
+                if x.eq(y):
+                    continue
+                goal = z3.ForAll([r], z3.Implies(z3.And([h0.is_alloc(r)] + [r != t for t in refs]), z3.Select(x, r) == z3.Select(y, r)))
+                self.oblige(st, goal, label + '.' + '.'.join(str(p) for p in key[1:]), 'frame')
 
     def ex_While(self, s, st):
         if s.orelse:
@@ -613,11 +693,11 @@ class Executor(Evaluator):
             return [(st.assume(*cx.facts), v)]
         if isinstance(obj, contracts.Contract) and obj.kind == 'lemma':
             return self.call_repo_function(obj.fn, None, args, kwargs, st, contract=obj)
-        if isinstance(obj, type):
-            return self.construct(obj, args, kwargs, st)
         r = bm.call_builtin(self, obj, args, kwargs, st)
         if r is not None:
             return r
+        if isinstance(obj, type):
+            return self.construct(obj, args, kwargs, st)
         if isinstance(obj, types.MethodType):
             raise Unsupported('bound python method %r' % (obj,))
         if isinstance(obj, types.FunctionType):
@@ -629,6 +709,15 @@ class Executor(Evaluator):
         params = list(sig.parameters.values())
         allargs = ([recv] if recv is not None else []) + list(args)
         bound = {}
+        var = [i for i, p in enumerate(params) if p.kind == p.VAR_POSITIONAL]
+        if var:
+            i = var[0]
+            for p, a in zip(params[:i], allargs[:i]):
+                bound[p.name] = a
+            bound[params[i].name] = mk_tuple(allargs[i:])
+            if any(p.kind == p.VAR_KEYWORD for p in params) or len(allargs) < i:
+                raise Unsupported('**kwargs / missing positional')
+            return bound
         for p, a in zip(params, allargs):
             bound[p.name] = a
         if len(allargs) > len(params):
@@ -645,6 +734,9 @@ class Executor(Evaluator):
     def dispatch_targets(self, fn, recv, st):
         """dynamic dispatch: [(state, function)] over the overrides feasible for the receiver's class"""
         if recv is None or not isinstance(recv.ty, TObj):
+            return [(st, fn)]
+        c0 = contracts.REG.get(repo.qualname_of(fn))
+        if c0 is not None and c0.interface_flag:
             return [(st, fn)]
         name = fn.__name__
         groups = {}
@@ -738,13 +830,25 @@ class Executor(Evaluator):
         for n, v in bound.items():
             env[n] = coerce(v, ptypes[n]) if n in ptypes else v
         pre_heap = st.heap
-        cx = SpecCtx(env, pre_heap, env, pre_heap, st, None)
+        cfr = Frame(fn, c) if c.kind != 'lemma' else None
+        cx = SpecCtx(env, pre_heap, env, pre_heap, st, cfr)
         for n, text in c.let_d:
-            env[n] = self.S.eval(text, cx)
+            val = self.S.eval(text, cx)
+            named = fresh(val.ty, 'let_' + n)
+            cx.facts += [a == b for a, b in zip(named.t, val.t)]
+            env[n] = named
         # 1. preconditions are obligations of the caller
         for name, text in c.requires_l:
             b = self.S.eval_bool(text, cx)
             self.oblige(st, b, '%s.call.%s.%s' % (self.frames[0].qualname.split('.')[-1], short, name), 'call-precondition', extra_hyps=cx.facts)
+        if c.kind == 'lemma' and self.frames and self.frames[0].contract is c:
+            # recursive use of the lemma = induction hypothesis: the measure must decrease
+            if not c.decreases_expr:
+                raise Unsupported('recursive lemma %s without decreases' % q)
+            m_new = coerce(self.S.eval(c.decreases_expr, cx), INT).term
+            top = self.frames[0]
+            m_old = coerce(self.S.eval(c.decreases_expr, SpecCtx(st.entry_locals, st.entry_heap, st.entry_locals, st.entry_heap, st, None)), INT).term
+            self.oblige(st, z3.And(m_new >= 0, m_new < m_old), '%s.induction.decreases' % short, 'termination', extra_hyps=cx.facts)
         st = st.assume(*cx.facts)
         out = []
         # 2. exceptional exits
@@ -754,7 +858,7 @@ class Executor(Evaluator):
             if when is None:
                 bad = st
             else:
-                cxw = SpecCtx(env, pre_heap, env, pre_heap, st, None)
+                cxw = SpecCtx(env, pre_heap, env, pre_heap, st, cfr)
                 w = self.S.eval_bool(when, cxw)
                 bad = st.assume(*(cxw.facts + [w]))
                 if exact:
@@ -773,17 +877,40 @@ class Executor(Evaluator):
         if c.fresh_result:
             post, r = self.new_ref(post, self.W.class_id(rty.cls) if isinstance(rty, TObj) else 1)
             result = SV(rty, [r])
+        elif c.pure_flag and c.kind != 'lemma':
+            names = list(env)
+            recv0 = env[names[0]] if names and names[0] == 'self' else None
+            rest = [env[n] for n in names if not (n == 'self' and recv0 is not None)][:len(inspect.signature(fn).parameters) - (1 if recv0 is not None else 0)]
+            result = self.S.pure_call(fn, recv0, rest, SpecCtx(env, pre_heap, env, pre_heap, post, None))
         else:
             result = fresh(rty, 'res_' + short)
         post.pc += self.W.type_facts(result, post.heap)
         env2 = dict(env); env2['result'] = result
-        cx2 = SpecCtx(env2, post.heap, env, pre_heap, post, None)
+        cx2 = SpecCtx(env2, post.heap, env, pre_heap, post, cfr)
         for name, text in c.ensures_l:
             b = self.S.eval_bool(text, cx2)
             post.pc.append(b)
         post.pc += cx2.facts
-        out.append((post, result))
+        posts = [post]
+        if c.effects:
+            saved = post.locals
+            post.locals = dict(env2)
+            self.frames.append(self.make_effect_frame(fn, c))
+            try:
+                posts = self.run_ghost(c.effects, post)
+            finally:
+                self.frames.pop()
+            for p in posts:
+                p.locals = dict(saved)
+        for p in posts:
+            out.append((p, result))
         return out
+
+    def make_effect_frame(self, fn, c):
+        fr = Frame(fn, c)
+        fr.node = None
+        fr.global_names = set()
+        return fr
 
     def havoc_modifies(self, c, env, st, pre_heap):
         """havoc what the contract's modifies clause names (see DESIGN 2.4)"""
@@ -793,9 +920,9 @@ class Executor(Evaluator):
         bumped = False
         for m in c.modifies_l:
             bm.havoc_target(self, m, cx, st, pre_heap)
-        # any heap modification invalidates pure-method abstractions
-        ep = st.heap.read_global('$epoch', INT)
-        st.heap.write_global('$epoch', INT, mk_int(z3.Int(fresh_name('epoch'))))
+        # heap modifications invalidate pure-method abstractions unless the contract says they are outside the footprint
+        if not c.keeps_epoch:
+            trace.bump(st)
 
     def construct(self, cls, args, kwargs, st):
         if issubclass(cls, BaseException):
